@@ -8,6 +8,9 @@
  *   setup <maxSize> <tokOpts> <num> <blk> <total>      setup_block_b(NULL, pdu, …)
  *   writeb <maxSize> <tokLen> <num> <szx> <dataLen>    coap_write_block_b_opt(NULL, …) on a PDU with token + Uri-Path "b"
  *   adl <maxSize> <tokLen> <blk|-> <maxBlk> <length>   coap_add_data_large_request on such a PDU
+ *   adlx <q|r> <maxSize> <maxBlk> <key.blk.length.plen.af|x,…>   a SEQUENCE of coap_add_data_large_request (q) / _response (r) calls on
+ *                                              ONE session (a body with the key of a transfer still in progress supersedes it), release
+ *                                              callback invocations counted PER BODY; described at do_adlx
  *   slice <szx> <num> <bodyLen> <seed>       coap_add_block / coap_add_block_b_data
  *   rb <n,n,…> <probeMax> <totMax>           update_received_blocks sequence + check_* queries
  *   body <bodyLen> <seed> <off:len:total,…>  coap_block_build_body sequence
@@ -45,8 +48,12 @@ void __real_coap_free_type(coap_memory_tag_t type, void *p);
 #define H_POISON_MAX ((size_t)1 << 26)      /* a body buffer of the size a hostile Size1/Size2 announces is left alone */
 static uint8_t h_poison = 0xA5;
 static long h_live;
+/* allocation failure injection (op adlx): the next coap_malloc_type() with this tag returns NULL; -1 = off */
+static int h_fail_tag = -1;
 void *__wrap_coap_malloc_type(coap_memory_tag_t type, size_t size) {
-  void *p = __real_coap_malloc_type(type, size);
+  void *p;
+  if (h_fail_tag >= 0 && (int)type == h_fail_tag) { h_fail_tag = -1; return NULL; }
+  p = __real_coap_malloc_type(type, size);
   if (p) { if (size <= H_POISON_MAX) memset(p, h_poison, size); h_live++; }
   return p;
 }
@@ -183,6 +190,127 @@ out:
   sim_log_enabled = 1;
   if (p && r) printf(" rel=%d", rel_count);
   free(body);
+}
+
+/* adlx <q|r> <maxSize> <maxBlk> <item,…> : the release callback over a SEQUENCE of coap_add_data_large_*() calls on one session.
+ * item `key.blk.length.plen.af` = one call handing libcoap a new body (bodies are numbered 0,1,… in call order, app_ptr points at
+ * the body's own invocation counter):
+ *   q: PUT on a <maxSize>-byte PDU, token = tokLenOf(key) bytes 0xa0+key (tokLenOf(0) = 0, else key*3%8+1: distinct keys are
+ *      distinct tokens), Uri-Path of <plen> bytes, Block1 (0,0,blk) unless blk = 7, coap_add_data_large_request();
+ *   r: response (4-byte token) on a <maxSize>-byte PDU to a GET for resource key%2 carrying Block2 (0,0,blk) and Request-Tag
+ *      (key/2)%3: absent / 0x71 / 0x72, query NULL, the response carrying a Location-Path of <plen> bytes (0: none; room for
+ *      the 2-byte Content-Format the function inserts is required: nopdu otherwise), coap_add_data_large_response();
+ *   af: allocation that fails during the call: 0 none, 1 the lg_xmit, 2 the application token copy (coap_new_binary), 3 the
+ *      skeleton PDU copy.  The PDU is deleted after the call (the lg_xmit stays linked, as after coap_send()).
+ * item `x` = every linked lg_xmit expires (coap_block_check_lg_xmit_timeouts far in the future).
+ * Per item: k<blk_size|-> (returned 1; blk_size of the lg_xmit the PDU points to) | f (returned 0) | nopdu | x, then
+ * /<key:body+…|-> the session's lg_xmit list from the head (key recovered from the real token / resource + Request-Tag, body from
+ * app_ptr), then /<one digit per body so far: how often its release callback has run>.  ` free=` the digits after the session
+ * was freed.  DANGLING: a refused call left pdu->lg_xmit set. */
+#define ADLX_MAX 32
+static void hnd_dummy(coap_resource_t *r, coap_session_t *s, const coap_pdu_t *req, const coap_string_t *q, coap_pdu_t *rsp);
+static int adlx_cnt[ADLX_MAX];
+static void adlx_cb(coap_session_t *s, void *app) { (void)s; (*(int *)app)++; }
+static size_t adlx_toklen(unsigned key) { return key == 0 ? 0 : (key * 3) % 8 + 1; }
+static void adlx_digits(int n) {
+  if (!n) { fputc('-', stdout); return; }
+  for (int i = 0; i < n; i++) fputc(adlx_cnt[i] > 9 ? '9' : '0' + adlx_cnt[i], stdout);
+}
+static void adlx_list(coap_session_t *s, coap_resource_t **res) {
+  coap_lg_xmit_t *x;
+  int first = 1;
+  if (!s->lg_xmit) { fputc('-', stdout); return; }
+  LL_FOREACH(s->lg_xmit, x) {
+    int key = -1, body = x->app_ptr ? (int)((int *)x->app_ptr - adlx_cnt) : -1;
+    if (COAP_PDU_IS_REQUEST(&x->pdu)) {
+      const coap_binary_t *t = x->b.b1.app_token;
+      if (t && t->length == 0) key = 0;
+      else if (t) { key = t->s[0] - 0xa0; if (key < 0 || key > 15 || adlx_toklen((unsigned)key) != t->length) key = -1; }
+    } else {
+      int r = x->b.b2.resource == res[0] ? 0 : x->b.b2.resource == res[1] ? 1 : -1;
+      int g = !x->b.b2.rtag_set ? 0 : (x->b.b2.rtag_length == 1 && x->b.b2.rtag[0] == 0x71) ? 1 :
+              (x->b.b2.rtag_length == 1 && x->b.b2.rtag[0] == 0x72) ? 2 : -1;
+      if (r >= 0 && g >= 0) key = r + 2 * g;
+    }
+    printf("%s%d:%d", first ? "" : "+", key, body);
+    first = 0;
+  }
+}
+
+static void do_adlx(int isReq, size_t maxSize, unsigned maxBlk, char *seq) {
+  sim_reset();
+  sim_log_enabled = 0;
+  coap_context_t *ctx = sim_new_context();
+  coap_session_t *s = sim_new_client(ctx, 5683);
+  coap_resource_t *res[2];
+  uint8_t *bodies[ADLX_MAX];
+  int nb = 0, k = 0;
+  char *tk, *save = NULL;
+  res[0] = coap_resource_init(coap_make_str_const("b0"), 0);
+  res[1] = coap_resource_init(coap_make_str_const("b1"), 0);
+  for (int i = 0; i < 2; i++) { coap_register_request_handler(res[i], COAP_REQUEST_GET, hnd_dummy); coap_add_resource(ctx, res[i]); }
+  coap_context_set_block_mode(ctx, COAP_BLOCK_USE_LIBCOAP | COAP_BLOCK_SINGLE_BODY);
+  if (maxBlk) coap_context_set_max_block_size(ctx, (size_t)1 << (maxBlk + 4));
+  s->block_mode = ctx->block_mode;
+  memset(adlx_cnt, 0, sizeof(adlx_cnt));
+  for (tk = strtok_r(seq, ",", &save); tk; tk = strtok_r(NULL, ",", &save), k++) {
+    unsigned key, blk, plen, af;
+    size_t length;
+    uint8_t tok[8], buf[4], path[256];
+    coap_pdu_t *p = NULL, *req = NULL;
+    int r = 0, ok = 1;
+    if (k) fputc(',', stdout);
+    if (!strcmp(tk, "x")) {
+      coap_tick_t rem;
+      sim_now += 1000000;
+      coap_lock_lock(ctx, break);
+      coap_block_check_lg_xmit_timeouts(s, sim_now, &rem);
+      coap_lock_unlock(ctx);
+      printf("x/");
+      adlx_list(s, res); fputc('/', stdout); adlx_digits(nb);
+      continue;
+    }
+    if (sscanf(tk, "%u.%u.%zu.%u.%u", &key, &blk, &length, &plen, &af) != 5 || key > 7 || blk > 7 || plen > 255 || af > 3 ||
+        nb >= ADLX_MAX || (!isReq && (blk > 6 || key > 5))) { printf("bad-op"); break; }
+    memset(path, 'p', sizeof(path));
+    if (isReq) {
+      size_t tl = adlx_toklen(key);
+      memset(tok, 0xa0 + (int)key, sizeof(tok));
+      p = coap_pdu_init(COAP_MESSAGE_CON, COAP_REQUEST_CODE_PUT, (coap_mid_t)(1 + k), maxSize);
+      ok = p && coap_add_token(p, tl, tok) && (!plen || coap_add_option(p, COAP_OPTION_URI_PATH, plen, path)) &&
+           (blk == 7 || coap_add_option(p, COAP_OPTION_BLOCK1, coap_encode_var_safe(buf, sizeof(buf), blk), buf));
+    } else {
+      uint8_t rt = (uint8_t)(0x70 + (key / 2) % 3);
+      memset(tok, 0xa1, sizeof(tok));
+      req = coap_pdu_init(COAP_MESSAGE_CON, COAP_REQUEST_CODE_GET, (coap_mid_t)(1 + k), 256);
+      p = coap_pdu_init(COAP_MESSAGE_ACK, COAP_RESPONSE_CODE_CONTENT, (coap_mid_t)(1 + k), maxSize);
+      ok = req && p && coap_add_token(req, 4, tok) &&
+           coap_add_option(req, COAP_OPTION_URI_PATH, 2, (const uint8_t *)(key % 2 ? "b1" : "b0")) &&
+           coap_add_option(req, COAP_OPTION_BLOCK2, coap_encode_var_safe(buf, sizeof(buf), blk), buf) &&
+           ((key / 2) % 3 == 0 || coap_add_option(req, COAP_OPTION_RTAG, 1, &rt)) && coap_add_token(p, 4, tok) &&
+           (!plen || coap_add_option(p, COAP_OPTION_LOCATION_PATH, plen, path)) && p->used_size + 2 <= p->max_size;
+    }
+    if (!ok) {
+      printf("nopdu/");
+    } else {
+      bodies[nb] = mk_body(length, (unsigned)nb);
+      h_fail_tag = af == 1 ? (int)COAP_LG_XMIT : af == 2 ? (int)COAP_STRING : af == 3 ? (int)COAP_PDU_BUF : -1;
+      if (isReq) r = coap_add_data_large_request(s, p, length, bodies[nb], adlx_cb, &adlx_cnt[nb]);
+      else r = coap_add_data_large_response(res[key % 2], s, req, p, NULL, COAP_MEDIATYPE_APPLICATION_OCTET_STREAM, -1, 0, length,
+                                            bodies[nb], adlx_cb, &adlx_cnt[nb]);
+      h_fail_tag = -1;
+      nb++;
+      if (r) { if (p->lg_xmit) printf("k%d/", (int)p->lg_xmit->blk_size); else printf("k-/"); }
+      else printf("f%s/", p->lg_xmit ? " DANGLING" : "");
+    }
+    if (p) coap_delete_pdu(p);
+    if (req) coap_delete_pdu(req);
+    adlx_list(s, res); fputc('/', stdout); adlx_digits(nb);
+  }
+  sim_free_all(0);
+  sim_log_enabled = 1;
+  printf(" free="); adlx_digits(nb);
+  for (int i = 0; i < nb; i++) free(bodies[i]);
 }
 
 static void do_slice(unsigned szx, unsigned num, size_t bodyLen, unsigned seed) {
@@ -1026,6 +1154,8 @@ static void step1(char *line) {
   } else if (!strcmp(w[0], "adl") && n == 6) {
     do_adl(strtoull(w[1], 0, 10), strtoull(w[2], 0, 10), strcmp(w[3], "-") ? atoi(w[3]) : -1, (unsigned)strtoul(w[4], 0, 10),
            strtoull(w[5], 0, 10));
+  } else if (!strcmp(w[0], "adlx") && n == 5 && (!strcmp(w[1], "q") || !strcmp(w[1], "r"))) {
+    do_adlx(w[1][0] == 'q', strtoull(w[2], 0, 10), (unsigned)strtoul(w[3], 0, 10), w[4]);
   } else if (!strcmp(w[0], "slice") && n == 5) {
     do_slice((unsigned)strtoul(w[1], 0, 10), (unsigned)strtoul(w[2], 0, 10), strtoull(w[3], 0, 10), (unsigned)strtoul(w[4], 0, 10));
   } else if (!strcmp(w[0], "rb") && n == 4) {
